@@ -27,7 +27,7 @@ var cssLower = map[string]bool{}
 var cssUpper = map[string]bool{"U": true, "R": true, "L": true, "S": true, "Z": true}
 
 func init() {
-	for _, c := range []string{"a", "e", "h", "i", "l", "m", "o", "p", "r", "s", "t", "u", "y", "f", "z"} {
+	for _, c := range []string{"a", "e", "h", "i", "l", "m", "n", "o", "p", "r", "s", "t", "u", "y", "f", "z"} {
 		cssLower[c] = true
 	}
 }
